@@ -86,9 +86,10 @@ def plainB (orc : String → Bool) : Event → Bool
   | .execute t ok => ok == orc t.1
   | _ => true
 
-/-- the event is a STALE RE-START: the delivery of a pending `start_task(first_run=False)` request
-    (queued by `resume` for a task that was still IDLE) to a task that has meanwhile FAILED:
-    `RegularTask._run_existing` runs the failed task again -/
+/-- the event is a STALE START REQUEST: the delivery of a pending `start_task(first_run=False)` request
+    (queued by `resume` for a task that was still IDLE) to a task that has meanwhile FAILED.  Before the
+    fix of `RegularTask._run_existing` (repo_patches/20) the failed task was run again; now the request
+    is ignored.  Kept as a coverage predicate of the `sem` stream (the fixed path is exercised). -/
 def staleB (w : World) : Event → Bool
   | .deliver (.rpcStartTask t false) =>
     w.pending.contains (.rpcStartTask t false) &&
